@@ -78,6 +78,13 @@ def run(ck: Check) -> None:
         want.append("E InvalidSignature")
         cases.append(Case("vgpg", [gen.raw_entry(k, data) | {"other_headers": hdr.hex()}, k.hex, data], tag="raw-signature-in-gpg-shape", group=i))
         want.append("E InvalidSignature")
+    # the rule does not look inside the hashed headers: whatever their first octet says about versions (3, 5, 6 ...), the trailer is 04 ff and a 32-bit length
+    for v0 in (0, 1, 2, 3, 5, 6, 0x7F, 0x80, 0xFF):
+        for hdr in (bytes([v0]) + gen.GPG_HDR_TYPICAL[1:], bytes([v0]), bytes([v0]) + bytes(rng.getrandbits(8) for _ in range(rng.choice([5, 34, 300])))):
+            k = gen.key(rng.randrange(10))
+            data = gen.oracle_bytes(envgen.payload(rng))
+            cases.append(Case("vgpg", [gen.gpg_entry(k, data, hdr), k.hex, data], tag="valid-first-octet", group=900 + v0))
+            want.append("OK")
     # entries as GnuPG really emits them — a well-formed hashed area whose subpackets use every length form (long notations, policy URIs), labelled with a
     # see_also fingerprint that matches the issuer subpacket or does not — over payloads whose length sits on buffer / hash-block / length-field boundaries
     sizes = gen.sizes_of_interest()
